@@ -381,43 +381,10 @@ def run(ctx):
         for fld in ("needs_cleanup_set", "needs_cleanup_prepare"):
             r5.check(fld in flds and fld in ncf, "flag-read:" + fld, "cleanup consults %s" % fld, "cleanup no longer consults %s (checkin=%s needs_cleanup=%s)" % (fld, fld in flds, fld in ncf))
 
-    # dirty marks are monotone during a checkout: only the reset that follows the clean-up query clears them
-    clearers = {}
-    for n_, b_ in F.bodies.items():
-        if n_.startswith("bin:"):
-            continue
-        for blk, i, st in b_.assigns():
-            pf = proj_fields(st["lhs"])
-            if pf[-1:] and pf[-1] in ("needs_cleanup_set", "needs_cleanup_prepare") and not (st["rv"]["k"] == "use" and const_int(st["rv"].get("op")) == 1):
-                clearers.setdefault(n_, set()).add(pf[-1])
-            if pf[-1:] == ["cleanup_state"]:
-                clearers.setdefault(n_, set()).add("cleanup_state")
-    extra = sorted(n_ for n_ in clearers if n_ not in ("pgcat::server::CleanupState::reset", "pgcat::server::CleanupState::new"))
-    r5.check("pgcat::server::CleanupState::reset" in clearers and not extra, "dirty-marks-monotone", "the dirty marks are cleared only by CleanupState::reset()",
-             "a dirty mark is cleared outside CleanupState::reset(): %s - what a CommandComplete tag says is not proof that the session is clean (RESET x / RESET ROLE / a RESET inside a rolled-back transaction all answer `RESET`), "
-             "the next client inherits the settings" % extra)
-    rc_ = sorted({c.body.name for c in F.all_calls("pgcat::server::CleanupState::reset")})
-    CC_, SP_ = "pgcat::server::Server::checkin_cleanup::{closure#0}", "pgcat::server::Server::sync_parameters::{closure#0}"
-    ok_reset = CC_ in rc_ and set(rc_) <= {CC_, SP_}
-    why_sp = ""
-    if ok_reset and cc:
-        q = [c for c in cc.calls("pgcat::server::Server::query") if not any(x.upper().startswith(("ROLLBACK", "ABORT")) for x in arg_strs(cc, c))]
-        rs = cc.calls("pgcat::server::CleanupState::reset")
-        # the reset follows the clean-up query (`?` leaves on Err)
-        ok_reset = bool(q) and bool(rs) and all(cc.dominates(q[0].block, r_.block) for r_ in rs)
-    if ok_reset and SP_ in rc_:
-        # sync_parameters issues pgcat's own SETs right after the checkout (before any client statement: C12-R1) and drops the mark those SETs caused;
-        # accepted only in that shape: the reset follows its own query, and handle calls sync_parameters before the transaction loop
-        sp = F.body(SP_)
-        q = sp.calls("pgcat::server::Server::query") if sp else []
-        rs = sp.calls("pgcat::server::CleanupState::reset") if sp else []
-        in_h = h.calls("pgcat::server::Server::sync_parameters") if h else []
-        claim_ = h.calls("pgcat::server::Server::claim") if h else []
-        callers = sorted({c.body.name for c in F.all_calls("pgcat::server::Server::sync_parameters")})
-        ok_reset = bool(q) and bool(rs) and all(sp.dominates(q[0].block, r_.block) for r_ in rs) and callers == [H] and len(in_h) == 1 and bool(claim_) and not [c for c in h.calls(*[x for x in SERVER_IO if not x.endswith("sync_parameters")]) if h.dominates(c.block, in_h[0].block)]
-        why_sp = " and by sync_parameters for the SETs pgcat itself issues right after the checkout, before any client statement"
-    r5.check(ok_reset, "reset-after-cleanup-query", "CleanupState::reset() is called only by checkin_cleanup after the clean-up query" + why_sp,
-             "CleanupState::reset() is called from %s / not after the clean-up query: marks are dropped without cleaning the session" % rc_)
+    # dirty marks are monotone during a checkout: only the reset that follows the clean-up query clears them (shared with C12-R6)
+    from common import cleanup_mark_findings
+    for key, ok, good, bad in cleanup_mark_findings(F):
+        r5.check(ok, key, good, bad)
 
     from common import rollback_findings
     for key, ok, where, wit in rollback_findings(F):
